@@ -72,8 +72,9 @@ def check(prop, tier, seed):
     counter = [0]
 
     def mk(body_cps):
+        # the unique marker is a plain word or a derive(...) list: attributes must not be treated differently by content
         counter[0] += 1
-        return "#[u%d %s]" % (counter[0], s_of(body_cps))
+        return ("#[u%d %s]" if counter[0] % 3 else "#[derive(U%d) %s]") % (counter[0], s_of(body_cps))
     rng.shuffle(good)
     grammars = []
     i = 0
